@@ -1,11 +1,6 @@
 import GontainerModel.Props.C02
 #print axioms GM.C02.chains_pinned
 #print axioms GM.C02.resolve_classifies
-#print axioms GM.C02.resolveWith_raw
-#print axioms GM.C02.resolve_raw
-#print axioms GM.C02.tokenize_error_nonempty
-#print axioms GM.C02.resolve_error_nonempty
-#print axioms GM.C02.resolveArgs_fold
 #print axioms GM.C02.args_order_preserved
 #print axioms GM.C02.scope_mapping
 #print axioms GM.C02.todo_short_circuit
